@@ -211,6 +211,10 @@ class Exec:
             return {'True': True, 'False': False, 'None': None}[nm]
         if nm in self.np.builtins or nm in self.np.special_forms or nm in EXC_NAMES or nm in ('object', 'bool', 'int', 'float', 'str', 'tuple', 'list', 'set', 'dict', 'super'):
             return ('builtin', nm)
+        if not self.spec and self.cur_node_stack:
+            fn = self.cur_node_stack[-1]
+            if any(isinstance(n, ast.Name) and n.id == nm and isinstance(n.ctx, ast.Store) for n in ast.walk(fn)):
+                raise PyRaise('UnboundLocalError', nm)      # a local that is not assigned on this path
         raise Unsupported('unbound name %s' % nm)
 
     def e_Tuple(self, e, st):
@@ -662,6 +666,8 @@ class Exec:
         for g in e.generators:
             itv = self.ev(g.iter, loc)
             vs, guard, el = self.iter_domain(itv, loc)
+            pit = loc.deref(itv)
+            loc.last_range = (pit[1], pit[2]) if tag(pit) == 'range' and pit[3] == 1 else None
             allvars += vs
             self.bound_stack.extend(vs)
             guards.append(guard)
@@ -750,6 +756,24 @@ class Exec:
 
     # ------------------------------------------------------------------ calls
     def e_Call(self, e, st):
+        if (not self.spec and isinstance(e.func, ast.Attribute) and e.func.attr in ('append', 'add') and isinstance(e.func.value, ast.Subscript)
+                and len(e.args) == 1 and not e.keywords):
+            rd, wr = self.lvalue(e.func.value, st)
+            cont = rd()
+            x = self.snapshot(self.ev(e.args[0], st), st)
+            if isinstance(cont, SList) and e.func.attr == 'append':
+                el = cont.elem or type_of(x)
+                items = cont.concrete_items()
+                if items is not None:
+                    wr(SList.of(items + [x], el))
+                else:
+                    from .npmodel2 import _val_ite
+                    wr(SList(Z(cont.n) + 1, lambda k, cont=cont, x=x: _val_ite(EQ(k, cont.n), x, cont.get(k)), el))
+                return None
+            if isinstance(cont, SSet) and e.func.attr == 'add':
+                wr(SSet(lambda y, cont=cont, x=x: OR(cont.member(y), EQ(y, x)), cont.elem))
+                return None
+            raise Unsupported('method %s on a subscripted %r' % (e.func.attr, type(cont)))
         f = self.ev(e.func, st)
         # spec-level special forms that need unevaluated arguments
         if tag(f) == 'builtin' and f[1] in self.np.special_forms:
@@ -964,6 +988,10 @@ class Exec:
             when = self.truth(self.evs(cl.kw['when'], loc), loc) if 'when' in cl.kw else None
             if when is None:
                 w = fresh_scalar(BOOL, 'raises_' + exc)
+                if 'must' in cl.kw:
+                    st.assume(IMPLIES(self.truth(self.evs(cl.kw['must'], loc), loc), w))
+                if 'may' in cl.kw:
+                    st.assume(IMPLIES(w, self.truth(self.evs(cl.kw['may'], loc), loc)))
             else:
                 w = when
             if w is False:
